@@ -121,6 +121,8 @@ type Run struct {
 	// implementation accepted; queries are checked for soundness of attribution (every
 	// returned sample was appended to that label set at that timestamp), not for completeness.
 	AttributionOnly bool
+	// SoundOnly makes Compare check only that returned samples exist in the model (no completeness).
+	SoundOnly bool
 	// failSeries is the series of the last Compare failure; commitSigs maps series to a
 	// known-finding signature whose trigger pattern occurred in the last commit.
 	failSeries int
@@ -239,6 +241,24 @@ func (r *Run) KnownTriggerSeen() bool {
 	}
 	return false
 }
+
+// AnyKnownTrigger reports whether the history contains the trigger pattern of any known
+// finding detected by this runner (used by checks that need an exact model afterwards).
+func (r *Run) AnyKnownTrigger() bool {
+	if len(r.tainted) > 0 || len(r.oooDeleteSurvivors) > 0 || len(r.hiddenCands) > 0 || len(r.headDeleted) > 0 || r.riskBound != math.MinInt64 || r.SnapRefRisk || r.Did["stale-reorder"] > 0 {
+		return true
+	}
+	for _, st := range r.dupStage {
+		if st >= 1 {
+			return true
+		}
+	}
+	return false
+}
+
+// SoundnessTrigger reports whether a known finding that can make the implementation return
+// a sample the model does not contain (without any delete) was triggered.
+func (r *Run) SoundnessTrigger() bool { return len(r.tainted) > 0 || r.Did["stale-reorder"] > 0 }
 
 // OOODeleteSeen reports whether a delete covered a sample that was stored through the
 // out-of-order path (trigger of the known finding delete-misses-ooo-head-samples).
@@ -566,6 +586,9 @@ func (r *Run) exec(op Op) error {
 		}
 		r.M.Commit(a.model)
 		r.commitSigs = map[int]string{}
+		if len(r.M.StaleBeforeHist) > 0 {
+			r.Did["stale-reorder"]++
+		}
 		for si := range r.M.StaleBeforeHist {
 			// known finding: a float staleness marker for a histogram series is converted at commit
 			// and thereby moved behind samples of the same series appended after it in the same batch
@@ -1083,6 +1106,9 @@ func (r *Run) Compare(what string, res Result, mint, maxt int64, sel []int) erro
 			seen[o.T] = true
 		}
 		for _, t := range ms.Times(mint, maxt) {
+			if r.SoundOnly {
+				break
+			}
 			if ms.Pts[t].Required && !seen[t] {
 				r.failT, r.failMissing = t, true
 				return r.sfailf(i, "%s [%d,%d]: series %d: committed sample at t=%d (%v) is missing from the result", what, mint, maxt, i, t, ms.Pts[t].Vals)
